@@ -88,6 +88,7 @@ func (publisherSelf *PublisherDef[T]) Publish(result T) {
 	for _, s := range subscribers {
 		verifPoint("pub.publish.beforeDeliver", publisherSelf)
 		if s.OnNext != nil {
+			s := s // the closure below may run later on the subOn handler
 
 			doSub := func() {
 				s.OnNext(result)
